@@ -45,6 +45,9 @@ def gen_history(rng, length, cli):
         hi += rng.choice([0, 0, 1, 3, 9, 20])
         rows.append((nid, hi, rng.randint(0, 1), rng.randint(-5, 40)))
         nid += 1
+    if rng.random() < 0.25:
+        # the first refresh runs on an EMPTY base table: the rollup exists with zero rows before any data arrives
+        ops.append(rng.choice([("full",), ("incr",), ("merge", 0)]) if not cli else ("cli", rng.choice(["full", "incremental", "merge"])))
     ops.append(("append", list(rows)))
     if rng.random() < 0.7:
         ops.append(rng.choice([("full",), ("incr",), ("merge", 0)]) if not cli else ("cli", rng.choice(["full", "incremental", "merge"])))
